@@ -393,7 +393,12 @@ class Repo:
     def stats(self):
         nf = sum(1 for _ in self.all_functions())
         nc = sum(1 for _ in self.all_classes())
-        return {"modules": len(self.modules), "classes": nc, "functions": nf, "digest": self.digest()}
+        norm_ = {}
+        for m in self.modules.values():
+            for k, v in getattr(m, "normalised", {}).items():
+                norm_[k] = norm_.get(k, 0) + v
+        ren = ["%s:%s %s->%s" % (m.name, qn, a, b) for m in self.modules.values() for qn, a, b in getattr(m, "renamings", [])]
+        return {"modules": len(self.modules), "classes": nc, "functions": nf, "digest": self.digest(), "normalised_spellings": norm_, "locals_renamed_to_reviewed_names": ren[:50]}
 
 
 # ---------------------------------------------------------------------- small AST helpers used everywhere
